@@ -8,33 +8,62 @@ TRUSTED = [
     "hand-written model props/C17/coq/Model.v of DocsPositions.SetMultiple, metaDataCollector (AppendMeta, Filter,"
     " GroupLIDsByToken), Active.AppendIDs/UpdateStats, TokenLIDs queues and of single-token search / histogram /"
     " count aggregation over LIDs (tied to /repo by the correspondence run, not verified code)",
-    "Go harness harness/cmd/hC17 (generators, token table, body <-> variant tag, sorting of LID lists and buckets)"
-    " and the add-only export files frac/export_verif_c17.go, fracmanager/export_verif_c17.go",
-    "seal, reload of sealed fractions, replay of active fractions, the docs/meta block codecs and the query engine"
-    " below the LID lists: NOT modelled; the observations after seal and restart are compared with the model (test)",
+    "hand-written model props/C17/coq/ModelSeal.v of Active.Replay + fracmanager loader/Load (the on-disk log = all"
+    " accepted bulks with repeats; replay = the same append step over the log; empty active fractions dropped, all but"
+    " the last active fraction sealed), of TokenLIDs.GetLIDs (sort by ID/LID descending, equal LIDs once), sortSeqIDs"
+    " (sealed LID order, old->new LID index), getIDsBlocksGenerator/fillPos (position per LID),"
+    " getLIDsBlockGenerator/reassignLIDs (postings in the sealed numbering), writeDocBlocksInOrder + docBlocksWriter"
+    " (sorted docs: adjacent equal IDs once, block flushed when the payload exceeds DocBlockSize, new positions) or"
+    " SkipSortDocs (active positions and blocks kept), Info.DocsTotal/From/To, sealed fetch (findLIDs ->"
+    " getDocPosByLIDs -> block/offset); reload of a sealed fraction is the IDENTITY on these tables in the model —"
+    " that the real loader (sealed_loader.go, IDs/LIDs/token block codecs, fraction info cache) reproduces them is"
+    " compared on every run (sealed tables read back through the real loaders before and after a restart), not proved",
+    "Go harness harness/cmd/hC17 (generators, token table, body bytes <-> tag = variant*4096+length, sorting of LID"
+    " lists and buckets) and the add-only export files frac/export_verif_c17.go, frac/export_verif_c17_sealed.go,"
+    " fracmanager/export_verif_c17.go, fracmanager/export_verif_c17_fracs.go",
+    "the docs/meta block codecs (zstd, DocBlock headers, docs offsets derived from meta blocks during replay), the"
+    " index file codecs and the query engine below the LID lists: NOT modelled; exercised by every history (test)",
     "harness/internal/storectl: every history runs on a real store inside a child process, so that a panic in an"
     " index worker or a Fatal is reported with the history as replay (fingerprint history-crash)",
 ]
 ASSUME = [
-    "each bulk carries pairwise distinct document IDs (nested metas directly follow their document, size 0)",
+    "each bulk carries pairwise distinct document IDs (nested metas directly follow their document, size 0); the"
+    " same ID twice inside ONE bulk is outside the quantifier: recorded as observation:same-bulk-duplicate-id in"
+    " stats.json (first bytes served, DocsTotal 1, but both metas get LIDs), not checked",
     "a repeated ID carries the tokens of its first delivery (the same bulk is re-delivered: same bytes, same"
     " tokens; the proxy never re-indexes an existing ID); only the body bytes of a repeat are varied by the driver"
     " to make 'first writer wins' observable. Outside this hypothesis the model still says 'first delivery wins'"
     " (the theorems hold for arbitrary repeats), but the real store leaves the repeat's new token with an empty"
     " posting list and searches on the sealed fraction panic: recorded as observation:repeat-new-token-empty-posting"
     " in stats.json, not checked",
+    "every meta carries the all-token `_all_` (hypothesis has_all of the seal theorems: the sealed LID table is built"
+    " from the all-token's postings); no document has the zero ID (0,0) (writeDocBlocksInOrder starts with the zero"
+    " ID as 'previous ID' and would skip it)",
     "at most one value of the aggregation group field per meta (single-source count aggregation)",
-    "concurrent deliveries and replay are modelled in list order; for them only order-insensitive observables"
-    " (search, totals, histogram, aggregation, DocsTotal, fetch of identical bytes) are compared",
+    "replay order: the model replays the log in file order. Histories whose repeats carry OTHER bytes run with ONE"
+    " index worker (conf.IndexWorkers = 1), where Active.Replay indexes the meta blocks in file order, and every"
+    " order-sensitive observable is compared after a restart (LID table, positions, block count, fetched bytes)."
+    " With several index workers (default) the replay order of the blocks is the workers' arrival order, so which"
+    " delivery of an ID wins is scheduling dependent; those histories (class history-conc) carry identical bytes on"
+    " every delivery and only order-insensitive observables (search, totals, histogram, aggregation, DocsTotal,"
+    " fetch, and the sealed tables with sorted docs) are compared",
+    "repeats landing in ANOTHER fraction carry the original bytes (cross-fraction fetch order is not modelled)",
     "DocsRaw (raw bytes appended) is not part of the observables: the code counts a dropped repeat's bytes again",
 ]
 RULE = ("collector cases: random bulks (0/1/many tokens, nested metas, repeated tokens) x dropped documents at "
-        "first/last/middle/all/none/random positions on ONE reused real collector; history cases: 2-6 bulks with "
-        "whole-bulk repeats, reordered repeats, partial overlaps with new documents, the same document several "
-        "times, sequential / concurrent / landing in a later fraction, each followed by seal and restart. "
-        "plus one stats-only observation outside the quantifier (known ID re-delivered with a token new to the "
-        "fraction: observation:repeat-new-token-empty-posting). non-trivial = filter with some but not all documents dropped / history with repeats and new documents; "
-        "distinct by input")
+        "first/last/middle/all/none/random positions on ONE reused real collector; history cases (CHist2, seal / "
+        "reload / replay predicted by the model): 2-6 bulks with whole-bulk repeats, reordered repeats, partial "
+        "overlaps with new documents, the same document several times, repeats with OTHER bytes under the same ID "
+        "(in a later bulk, after a restart, after seal + restart), sequential / concurrent / landing in a later "
+        "fraction, restarts between bulks (also twice in a row), sorted docs with default and tiny docs blocks and "
+        "SkipSortDocs; fixed shapes scn-restart-between (first delivery, restart, repeat), scn-seal-repeat (repeat, "
+        "seal, repeat in the new fraction, repeat again), scn-overlap (chains of partial overlaps), scn-degenerate "
+        "(restart of an empty store, seal of an empty fraction, double seal, double restart, repeat-only bulk); "
+        "copies of the index state of every fraction (active: LID table, postings, positions; sealed: LID table, "
+        "position per LID, postings, block count, Info) after restarts and seals. "
+        "plus two stats-only observations outside the quantifier (observation:repeat-new-token-empty-posting, "
+        "observation:same-bulk-duplicate-id). non-trivial = filter with some but not all documents dropped / "
+        "history with repeats and new documents; distinct by input")
 
 
 def harness_args(tier, seed, outdir):
